@@ -127,7 +127,7 @@ var props = []*prop{
 		Assumptions: trusted,
 		Builds:      plain,
 		Quick:       budget{Shards: 14, Checks: 55, TimeoutS: 600, ShrinkS: 30},
-		Thorough:    budget{Shards: 14, Checks: 1200, TimeoutS: 5000, ShrinkS: 60},
+		Thorough:    budget{Shards: 14, Checks: 900, TimeoutS: 5000, ShrinkS: 60},
 	},
 	{
 		ID: "C03", Pkg: "c03", Level: "exploration",
@@ -137,7 +137,7 @@ var props = []*prop{
 		Assumptions: trusted,
 		Builds:      plain,
 		Quick:       budget{Shards: 14, Checks: 36, TimeoutS: 600, ShrinkS: 30},
-		Thorough:    budget{Shards: 14, Checks: 700, TimeoutS: 5000, ShrinkS: 60},
+		Thorough:    budget{Shards: 14, Checks: 500, TimeoutS: 5000, ShrinkS: 60},
 	},
 	{
 		ID: "C04", Pkg: "c04", Level: "exploration",
@@ -150,7 +150,7 @@ var props = []*prop{
 			{Name: "debug", Tags: []string{"verif", "validatedebug"}, ShardShare: 0.5},
 		},
 		Quick:    budget{Shards: 14, Checks: 180, TimeoutS: 600},
-		Thorough: budget{Shards: 14, Checks: 5000, TimeoutS: 5000},
+		Thorough: budget{Shards: 14, Checks: 3500, TimeoutS: 5000},
 	},
 	{
 		ID: "C05", Pkg: "c05", Level: "exploration",
@@ -163,7 +163,7 @@ var props = []*prop{
 			{Name: "plain", Tags: []string{"verif"}, ShardShare: 0.3, ChecksScale: 5},
 		},
 		Quick:    budget{Shards: 14, Checks: 9, TimeoutS: 900},
-		Thorough: budget{Shards: 14, Checks: 150, TimeoutS: 6000},
+		Thorough: budget{Shards: 14, Checks: 110, TimeoutS: 6000},
 	},
 	{
 		ID: "C06", Pkg: "c06", Level: "exploration",
@@ -184,7 +184,7 @@ var props = []*prop{
 		Assumptions: trusted,
 		Builds:      plain,
 		Quick:       budget{Shards: 14, Checks: 30, TimeoutS: 600, ShrinkS: 30},
-		Thorough:    budget{Shards: 14, Checks: 600, TimeoutS: 5000, ShrinkS: 60},
+		Thorough:    budget{Shards: 14, Checks: 450, TimeoutS: 5000, ShrinkS: 60},
 		Fuzz:        &fuzzCfg{Target: "FuzzC07", Seconds: 300},
 	},
 	{
@@ -206,30 +206,30 @@ var props = []*prop{
 		Assumptions: trusted,
 		Builds:      plain,
 		Quick:       budget{Shards: 14, Checks: 60, TimeoutS: 600, ShrinkS: 30},
-		Thorough:    budget{Shards: 14, Checks: 1200, TimeoutS: 5000, ShrinkS: 60},
+		Thorough:    budget{Shards: 14, Checks: 900, TimeoutS: 5000, ShrinkS: 60},
 	},
 	{
 		ID: "C10", Pkg: "c10", Level: "exploration",
 		Technique:   "metamorphic property-based testing (rapid): repetitions, serialisation variants and the two continue-on-errors modes of one document must agree as stated",
-		LevelText:   "Valid, singly and multiply broken generated specifications (several independent rule violations in different definitions / operations), structurally edited documents and fixtures; each loaded afresh and validated repeatedly, in both modes, from JSON, key-reversed JSON and YAML; equal message sets across repetitions and renderings, stop-early errors contained in continue-on-errors errors, validity <=> no error, returned warnings = attached warnings.",
+		LevelText:   "Valid, singly and multiply broken generated specifications (several independent rule violations in different definitions / operations), structurally edited documents and fixtures; each loaded afresh and validated repeatedly, in both modes, from JSON, key-reversed JSON and YAML, then once more loaded and validated three times in a row without re-loading, and by a validator object that has validated another document before; equal message sets across repetitions and renderings, stop-early errors contained in continue-on-errors errors, validity <=> no error, returned warnings = attached warnings.",
 		LevelNote:   "No reference model: the oracle is the relation between runs. Go randomises map iteration per range statement, so in-process repetitions exercise order dependence; separate shard processes add different hash seeds. Trusted: yaml.v3 / encoding/json renderings, message normalisation (only circular-ancestry messages are normalised).",
 		Assumptions: trusted,
 		Builds:      plain,
 		Quick:       budget{Shards: 14, Checks: 16, TimeoutS: 900, ShrinkS: 30},
-		Thorough:    budget{Shards: 14, Checks: 300, TimeoutS: 6000, ShrinkS: 60},
+		Thorough:    budget{Shards: 14, Checks: 150, TimeoutS: 6000, ShrinkS: 60},
 	},
 	{
 		ID: "C11", Pkg: "c11", Level: "fault_enumeration",
 		Technique:   "property-based testing (rapid) with fault injection: for every generated workload the caller-supplied format checker is made to panic at its k-th invocation for EVERY k the workload reaches; differential against outcomes computed alone from reset pools",
-		LevelText:   "Fault points are enumerated exhaustively within each generated workload (k = 1..N checker invocations, N <= 64, plus the fault-free history containing the documented unresolvable-$ref panic), workloads are sampled. After each recovered panic the rest of the workload and a probe sequence over all (schema, instance) pairs must return what they return alone from fresh pools; half of the shards use the validatedebug pools (double redeem panics), and a drawn scribble mode overwrites every redeemed object.",
+		LevelText:   "Fault points are enumerated exhaustively within each generated workload (k = 1..N checker invocations, N <= 64, plus the fault-free history containing the documented unresolvable-$ref panic), workloads are sampled. After each recovered panic the rest of the workload and a probe sequence over all (schema, instance) pairs must return what they return alone from fresh pools; half of the shards use the validatedebug pools (double redeem panics), and a drawn scribble mode overwrites every redeemed object. About one case in 64 adds small specifications whose defaults and examples carry the fuse formats: there the fault points are sampled (first, middle and last checker invocation of the first document), and after each one every document is validated by the same SpecValidator object and by a fresh one.",
 		LevelNote:   "Trusted: the fuse registry (internal/reg Hook), panic capture, the verif redeem hook and scribbler. Panics raised elsewhere than a format checker or the documented schema panic are outside the statement and are not injected.",
 		Assumptions: trusted,
 		Builds: []buildVariant{
 			{Name: "plain", Tags: []string{"verif"}, ShardShare: 0.5},
 			{Name: "debug", Tags: []string{"verif", "validatedebug"}, ShardShare: 0.5, ChecksScale: 0.4},
 		},
-		Quick:    budget{Shards: 14, Checks: 1200, TimeoutS: 400},
-		Thorough: budget{Shards: 14, Checks: 30000, TimeoutS: 4000},
+		Quick:    budget{Shards: 14, Checks: 1200, TimeoutS: 900},
+		Thorough: budget{Shards: 14, Checks: 9000, TimeoutS: 6000},
 	},
 	{
 		ID: "C12", Pkg: "c12", Level: "exploration",
@@ -239,7 +239,7 @@ var props = []*prop{
 		Assumptions: trusted,
 		Builds:      plain,
 		Quick:       budget{Shards: 14, Checks: 2500, TimeoutS: 600},
-		Thorough:    budget{Shards: 14, Checks: 60000, TimeoutS: 6000},
+		Thorough:    budget{Shards: 14, Checks: 45000, TimeoutS: 6000},
 		Fuzz:        &fuzzCfg{Target: "FuzzC12", Seconds: 120},
 	},
 	{
